@@ -4,7 +4,9 @@
 //!  2 sip*4 sport smac*6 dip*4 dport dmac*6 payload  impl(0 frame | 2)
 //!  3 m wire impl_decode           (m's options in the implementation's iteration order)
 //!  4 bytes impl_decode
-use crate::util::*;
+#[path = "../util.rs"]
+mod util;
+use util::*;
 use erbium::dhcp::dhcppkt;
 use erbium::dhcp::dhcppkt::verif as hk;
 use std::io::Write;
@@ -370,6 +372,10 @@ fn replay_line(toks: &[u64]) -> Option<Toks> {
         4 => Some(case_decode(&c.bytes()?)),
         _ => None,
     }
+}
+
+fn main() {
+    harness_main("C12", run);
 }
 
 pub fn run(args: &Args, out: &mut dyn Write) -> Stats {
